@@ -1,6 +1,9 @@
 """C07 — Matching is an optimal one-to-one assignment that covers every geometry once."""
+import collections.abc
 import contextlib
+import copy
 import itertools
+import json
 from fractions import Fraction
 
 import numpy as np
@@ -8,6 +11,9 @@ import numpy as np
 from ..core import Op, jkey
 from ..rat import rat, frac
 from .. import gen_geom
+from .. import history
+from .. import c07_oracle as oracle
+from .. import c07_fresh
 
 PROPERTY = "C07"
 LEAN_MODULE = "Proofs.C07"
@@ -20,7 +26,12 @@ THEOREMS = [_T + n for n in [
     "C07_holds_iff", "C07_model_holds",
     # review: optimality by certificate (any size), every valid assignment, the matrix-fill loop, geometry level
     "C07_weak_duality", "C07_cert_best", "C07_optimal_cert_iff", "C07_optimal_by_cert", "C07_holds_by_cert",
-    "C07_shape_any_valid", "C07_length", "C07_sortEntries_perm", "C07_matrix_is_affinity", "C07_geometries"]]
+    "C07_shape_any_valid", "C07_length", "C07_sortEntries_perm", "C07_matrix_is_affinity", "C07_geometries",
+    # follow-up (histories and construction paths): the call protocol, a whole call from the coordinates, history /
+    # memoisation semantics, judging against an independent matrix with a tolerance
+    "C07_bind_positional_eq_keyword", "C07_match_call_styles", "C07_call_spec", "C07_history_step",
+    "C07_memo_full_key_sound", "C07_memo_partial_key_unsound", "C07_stale_buffer_history", "C07_optimal_perturb",
+    "C07_holds_ind", "C07_holds_ind_cert"]]
 LEVEL_TEXT = ("Lean theorems over the model of match_geometries (matrix-fill loop, _select_matches, emission; compute_affinity and "
               "scipy's assignment are parameters, the latter under the explicit ValidAssignment hypothesis): every source and target "
               "index occurs exactly once, pairs only with positive affinity, reported affinity = affinity of that pair of geometries, "
@@ -112,16 +123,177 @@ def _geoms(inp):
     return src, [gen_geom.to_data(g) for g in inp["target"]]
 
 
-def _impl_match(inp):
+# ---- construction and passing styles (HISTORIES.md section 2).  inp["style"] = {"call", "num", "cont", "geom", "share"}
+CALL_STYLES = ("kw", "pos", "pos3", "kw_rev", "kw_mixed", "default", "default_fb", "default_tb")
+NUM_STYLES = ("float", "int", "np64", "np32", "npint")
+CONT_STYLES = ("list", "tuple", "seq", "nparr")
+GEOM_STYLES = ("validate", "ctor", "dict", "json", "copy", "deepcopy", "tuples", "ints", "npcoords")
+
+
+class _Seq(collections.abc.Sequence):
+    """a Sequence that is neither a list nor a tuple"""
+
+    def __init__(self, xs):
+        self._xs = list(xs)
+
+    def __len__(self):
+        return len(self._xs)
+
+    def __getitem__(self, i):
+        return self._xs[i]
+
+
+def _num(q, how):
+    v = float(frac(q))
+    if how == "int" and v == int(v):
+        return int(v)
+    if how == "np64":
+        return np.float64(v)
+    if how == "np32" and float(np.float32(v)) == v:
+        return np.float32(v)
+    if how == "npint" and v == int(v):
+        return np.int64(int(v))
+    return v
+
+
+def _map_leaves(c, fn):
+    return [_map_leaves(x, fn) for x in c] if isinstance(c, list) else fn(c)
+
+
+def _tuplify(c):
+    return tuple(_tuplify(x) for x in c) if isinstance(c, list) else c
+
+
+def _geom_obj(gj, how=None):
+    """a live geometry for the JSON geometry, by one of several equivalent construction paths"""
+    if how in (None, "validate"):
+        return gen_geom.to_data(gj)
+    from soundevent import data
+    cls = getattr(data, gj["type"])
+    c = gen_geom.coords_float(gj)
+    if how == "ctor":
+        return cls(coordinates=c)
+    if how == "dict":
+        return cls.model_validate({"type": gj["type"], "coordinates": c})
+    if how == "json":
+        return cls.model_validate_json(json.dumps({"type": gj["type"], "coordinates": c}))
+    if how == "copy":
+        return gen_geom.to_data(gj).model_copy()
+    if how == "deepcopy":
+        return copy.deepcopy(gen_geom.to_data(gj))
+    if how == "tuples":
+        return cls(coordinates=_tuplify(c))
+    if how == "ints":
+        return cls(coordinates=_map_leaves(c, lambda x: int(x) if x == int(x) else x) if isinstance(c, list)
+                   else (int(c) if c == int(c) else c))
+    if how == "npcoords":
+        return cls(coordinates=_map_leaves(c, np.float64) if isinstance(c, list) else np.float64(c))
+    return gen_geom.to_data(gj)
+
+
+def _container(xs, how):
+    if how == "tuple":
+        return tuple(xs)
+    if how == "seq":
+        return _Seq(xs)
+    if how == "nparr":
+        arr = np.empty(len(xs), dtype=object)
+        for i, x in enumerate(xs):
+            arr[i] = x
+        return arr
+    return list(xs)
+
+
+def _live_args(inp, pool=None):
+    """the live arguments of a call: lists of geometry objects, the two buffers, how to pass them"""
+    st = inp.get("style") or {}
+    gs = st.get("geom")
+    pool = {} if (pool is None and st.get("share")) else pool
+
+    def obj(g):
+        if pool is None:
+            return _geom_obj(g, gs)
+        k = jkey(g)
+        if k not in pool:
+            pool[k] = _geom_obj(g, gs)
+        return pool[k]
+    src = _container([obj(g) for g in inp["source"]], st.get("cont"))
+    tgt = src if inp.get("alias") else _container([obj(g) for g in inp["target"]], st.get("cont"))
+    return {"src": src, "tgt": tgt, "tb": _num(inp["tb"], st.get("num")), "fb": _num(inp["fb"], st.get("num")),
+            "call": _effective_call(inp), "json": [inp["source"], inp["target"], bool(inp.get("alias"))]}
+
+
+def _effective_call(inp):
+    """the call style, falling back to keywords where a default cannot be relied on"""
+    call = (inp.get("style") or {}).get("call") or "kw"
+    tb_default, fb_default = frac(inp["tb"]) == Fraction(1, 100), frac(inp["fb"]) == 100
+    if call == "default" and not (tb_default and fb_default):
+        return "kw"
+    if call == "default_fb" and not fb_default:
+        return "kw"
+    if call == "default_tb" and not tb_default:
+        return "kw"
+    return call
+
+
+def _pos_kw(call, src, tgt, tb, fb):
+    """positional and keyword arguments of `match_geometries` for a call style"""
+    if call == "pos":
+        return [src, tgt, tb, fb], {}
+    if call == "pos3":
+        return [src, tgt, tb], {"freq_buffer": fb}
+    if call == "kw_rev":
+        return [], {"freq_buffer": fb, "target": tgt, "time_buffer": tb, "source": src}
+    if call == "kw_mixed":
+        return [src, tgt], {"freq_buffer": fb, "time_buffer": tb}
+    if call == "default":
+        return [src, tgt], {}
+    if call == "default_fb":
+        return [src, tgt, tb], {}
+    if call == "default_tb":
+        return [src, tgt], {"freq_buffer": fb}
+    return [src, tgt], {"time_buffer": tb, "freq_buffer": fb}
+
+
+def _invoke(args):
     from soundevent.evaluation import match_geometries
-    src, tgt = _geoms(inp)
-    out = list(match_geometries(src, tgt, time_buffer=_f(inp["tb"]), freq_buffer=_f(inp["fb"])))
-    return {"val": _canon(out)}
+    pos, kw = _pos_kw(args["call"], args["src"], args["tgt"], args["tb"], args["fb"])
+    return match_geometries(*pos, **kw)
+
+
+def _impl_match(inp):
+    return {"val": _canon(list(_invoke(_live_args(inp))))}
+
+
+def _bound_call_msg(ctx, inp):
+    """the call as written (positional / keyword / omitted arguments) bound by the Lean model of the call
+    protocol (`MatchCall.callOf`, theorem C07_match_call_styles) is the call the case means"""
+    call = _effective_call(inp)
+    src, tgt = {"geoms": inp["source"]}, {"geoms": inp["target"]}
+    pos, kw = _pos_kw(call, src, tgt, {"num": inp["tb"]}, {"num": inp["fb"]})
+    b = ctx.model("bind_call", {"pos": pos, "kw": [[k, v] for k, v in kw.items()]})
+    if "raise" in b:
+        return f"the model of the call protocol rejects the call style {call}"
+    same = (frac(b["tb"]) == frac(inp["tb"]) and frac(b["fb"]) == frac(inp["fb"])
+            and jkey(_norm_geoms(b["source"])) == jkey(_norm_geoms(inp["source"]))
+            and jkey(_norm_geoms(b["target"])) == jkey(_norm_geoms(inp["target"])))
+    return None if same else f"the model binds the call style {call} to another call: {jkey(b)[:200]}"
+
+
+def _norm_geoms(gs):
+    return [{"type": g["type"], "coordinates": _map_leaves(g["coordinates"], lambda x: rat(frac(x)))
+             if isinstance(g["coordinates"], list) else rat(frac(g["coordinates"]))} for g in gs]
+
+
+def _core_key(inp):
+    return jkey([inp["source"], inp["target"], inp["tb"], inp["fb"], bool(inp.get("alias"))])
 
 
 def _matrix_of(inp):
-    """affinity matrix by the real compute_affinity, and scipy's answer on it (cached per input)"""
-    k = jkey(inp)
+    """affinity matrix by the real compute_affinity, and scipy's answer on it (cached per input).  The library's
+    compute_affinity is a *monitored contract* here, not the oracle: `_holds_independent` compares every entry with
+    the affinity stated independently of the code (harness/c07_oracle.py)"""
+    k = _core_key(inp)
     if k not in _CACHE:
         if len(_CACHE) > 4096:
             _CACHE.clear()
@@ -207,28 +379,31 @@ def _stub_geoms(n, m):
 
 # ---------------------------------------------------------------- optimality certificates (any size)
 def _certificate(rows, n, m):
-    """Untrusted helper: exact (Fraction) Hungarian method on the zero-padded square matrix.  Returns row
+    """Untrusted helper: exact (Fraction) Hungarian method, rectangular (O(min(n,m)^2 max(n,m))).  Returns row
     potentials u, column potentials v (all >= 0, aff[i][j] <= u[i] + v[j]) and a witness pairing whose value is
     sum(u) + sum(v).  Lean *checks* the certificate (`certOk`, theorem C07_cert_best); nothing here is trusted."""
-    N = max(n, m)
-    if N == 0 or n == 0 or m == 0:
+    if n == 0 or m == 0:
         return [Fraction(0)] * n, [Fraction(0)] * m, []
-    w = [[(max(rows[i][j], Fraction(0)) if i < n and j < m else Fraction(0)) for j in range(N)] for i in range(N)]
-    u = [Fraction(0)] * (N + 1)
-    v = [Fraction(0)] * (N + 1)
-    p = [0] * (N + 1)
-    way = [0] * (N + 1)
-    for i in range(1, N + 1):
+    if n > m:
+        t = [[rows[i][j] for i in range(n)] for j in range(m)]
+        v, u, w = _certificate(t, m, n)
+        return u, v, sorted([b, a] for a, b in w)
+    w = [[max(rows[i][j], Fraction(0)) for j in range(m)] for i in range(n)]
+    u = [Fraction(0)] * (n + 1)
+    v = [Fraction(0)] * (m + 1)
+    p = [0] * (m + 1)
+    way = [0] * (m + 1)
+    for i in range(1, n + 1):
         p[0] = i
         j0 = 0
-        minv = [None] * (N + 1)
-        used = [False] * (N + 1)
+        minv = [None] * (m + 1)
+        used = [False] * (m + 1)
         while True:
             used[j0] = True
             i0 = p[j0]
             delta = None
             j1 = None
-            for j in range(1, N + 1):
+            for j in range(1, m + 1):
                 if not used[j]:
                     cur = -w[i0 - 1][j - 1] - u[i0] - v[j]
                     if minv[j] is None or cur < minv[j]:
@@ -237,7 +412,7 @@ def _certificate(rows, n, m):
                     if delta is None or minv[j] < delta:
                         delta = minv[j]
                         j1 = j
-            for j in range(N + 1):
+            for j in range(m + 1):
                 if used[j]:
                     u[p[j]] += delta
                     v[j] -= delta
@@ -252,15 +427,14 @@ def _certificate(rows, n, m):
             j0 = j1
             if j0 == 0:
                 break
-    big_u = [-u[i] for i in range(1, N + 1)]
-    big_v = [-v[j] for j in range(1, N + 1)]
-    c = min(big_v)
+    big_u = [-u[i] for i in range(1, n + 1)]
+    big_v = [-v[j] for j in range(1, m + 1)]
+    c = min(big_v)          # 0 when a column stays free (n < m); the usual shift for square matrices
     big_u = [x + c for x in big_u]
     big_v = [x - c for x in big_v]
-    witness = [[p[j] - 1, j - 1] for j in range(1, N + 1)
-               if p[j] - 1 < n and j - 1 < m and rows[p[j] - 1][j - 1] > 0]
+    witness = [[p[j] - 1, j - 1] for j in range(1, m + 1) if p[j] != 0 and rows[p[j] - 1][j - 1] > 0]
     witness.sort()
-    return big_u[:n], big_v[:m], witness
+    return big_u, big_v, witness
 
 
 def _cert_args(a):
@@ -419,6 +593,195 @@ def _mk_holds(args_of, tol):
     return holds
 
 
+# ---------------------------------------------------------------- the independent affinity matrix (oracle independence)
+def _snap(rows, out, tau):
+    """Python twin of `MatchCall.snap` (only to produce a certificate; Lean recomputes the snapped matrix)"""
+    b = [list(r) for r in rows]
+    seen = set()
+    for e in out:
+        if e[0] is None or e[1] is None or (e[0], e[1]) in seen:
+            continue
+        seen.add((e[0], e[1]))
+        if e[0] < len(b) and e[1] < len(b[e[0]]) and abs(frac(b[e[0]][e[1]]) - frac(e[2])) <= tau:
+            b[e[0]][e[1]] = rat(frac(e[2]))
+    return b
+
+
+def _holds_independent(ctx, inp, io):
+    """the output of match_geometries, and the library's compute_affinity, against the affinity of every pair
+    stated independently of the code under test (Lean closed forms / GEOS called by the harness on the
+    coordinates): theorem C07_holds_ind says what an accepted verdict means"""
+    if "raise" in io:
+        return None
+    ind = oracle.matrix(ctx.model, inp["source"], inp["target"], inp["tb"], inp["fb"])
+    if "raise" in ind:
+        ctx.tally("independent matrix: the call raises in the model (outside the quantifier; not judged)")
+        return None
+    ctx.tally("independent matrix entries: closed form (Lean)", ind["closed"])
+    ctx.tally("independent matrix entries: GEOS on the coordinates", ind["geos"])
+    tau = ind["tau"]
+    n, m = len(inp["source"]), len(inp["target"])
+    lib = _matrix_of(inp)
+    for i in range(n):
+        for j in range(m):
+            if abs(frac(lib["matrix"][i][j]) - frac(ind["matrix"][i][j])) > tau:
+                return ("C07 fails against the independent affinities: "
+                        f"compute_affinity(source[{i}], target[{j}], time_buffer={inp['tb']}, freq_buffer={inp['fb']}) = "
+                        f"{float(frac(lib['matrix'][i][j]))!r} but the affinity of that pair from the coordinates and the "
+                        f"buffers of this call is {float(frac(ind['matrix'][i][j]))!r}")
+    ctx.tally("contract:compute_affinity = independent affinity (per matrix)")
+    tol = tau * min(n, m) + TOL
+    args = {"n": n, "m": m, "matrix": ind["matrix"], "out": io["val"], "tau": rat(tau), "tol": rat(tol)}
+    lim = _brute_limit(ctx)
+    big = n > lim or m > lim
+    if big:
+        b = _snap(ind["matrix"], io["val"], tau)
+        u, v, w = _certificate([[frac(x) for x in row] for row in b], n, m)
+        args.update(u=[rat(x) for x in u], v=[rat(x) for x in v], witness=w)
+    r = ctx.model("holds_ind", args)
+    if r["all"]:
+        return None
+    bad = [k for k in ("cover_src", "cover_tgt", "within", "entries", "optimal") if not r[k]]
+    if big and not r["cert"] and bad in ([], ["optimal"]):
+        ctx.fail("obligation", "optimality certificate", inp=inp,
+                 detail="the harness could not produce a certificate Lean accepts (independent matrix)")
+        return None
+    msg = {"cover_src": "a source index is missing or repeated", "cover_tgt": "a target index is missing or repeated",
+           "within": "a reported affinity is not the affinity of that pair computed from the coordinates and the "
+                     "buffers of this call",
+           "entries": "a pair with non-positive affinity or a non-zero one-sided match",
+           "optimal": f"sum of reported affinities {r['total']} below the optimum {r['best']} of the independent matrix"}
+    return "C07 fails against the independent affinities: " + "; ".join(msg[k] for k in bad)
+
+
+def _mk_judge_match():
+    lib = _mk_holds(_matrix_of, TOL)
+
+    def judge(ctx, inp, io):
+        msg = lib(ctx, inp, io)
+        if msg:
+            return msg
+        msg = _holds_independent(ctx, inp, io)
+        if msg:
+            return msg
+        if inp.get("style"):
+            st = inp["style"]
+            for k in ("call", "num", "cont", "geom"):
+                if st.get(k):
+                    ctx.tally(f"style:{k}={_effective_call(inp) if k == 'call' else st[k]}")
+            return _bound_call_msg(ctx, inp)
+        return None
+    return judge
+
+
+_judge_match = _mk_judge_match()
+
+
+# ---------------------------------------------------------------- the pristine-process probe (harness/c07_fresh.py)
+_FRESH = [None]
+_RING = collections.deque(maxlen=20)
+_PROBE = {"n": 0, "explained": 0}
+
+
+def _fresh():
+    if _FRESH[0] is None:
+        import os
+        _FRESH[0] = c07_fresh.Fresh(os.environ.get("SOUNDEVENT_SRC", "/repo/src"))
+    return _FRESH[0]
+
+
+def _close_fresh():
+    if _FRESH[0] is not None:
+        _FRESH[0].close()
+        _FRESH[0] = None
+
+
+import atexit  # noqa: E402
+atexit.register(_close_fresh)
+
+
+def _plain(o):
+    return {k: v for k, v in o.items() if k != "trace"} if isinstance(o, dict) else o
+
+
+def _refine(ctx, x, io_bad, msg):
+    """A failing call: does it fail on its own?  If a fresh process answers the same call differently the failure
+    depends on what was called before; then look for a short history (a neighbour of the call with other buffers, or
+    one of the recent calls, in front of it) that reproduces it in a fresh process and record *that* as the
+    violation - its replay stands on its own.  Returns the message to report for the single call (None when a
+    history was recorded instead)."""
+    F = _fresh()
+    alone = F.run({"seq": [{"inp": x}]})
+    if alone is None:
+        return msg
+    if _plain(alone[0]) == _plain(io_bad):
+        return msg
+    ctx.tally("pristine-process probe: failing call answers differently in a fresh process (state-dependent)")
+    if _PROBE["explained"] >= 4:
+        _PROBE["explained"] += 1
+        return None
+    cands = [{**x, "tb": tb, "fb": fb, "style": None} for tb, fb in _BUFFER_CHOICES[:5] if (tb, fb) != (x["tb"], x["fb"])]
+    cands = [{k: v for k, v in c.items() if v is not None} for c in cands] + list(reversed(_RING))
+    for r in cands[:18]:
+        hist = {"seq": [{"inp": r}, {"inp": x}]}
+        outs = F.run(hist)
+        if outs is None:
+            break
+        if _plain(outs[1]) == _plain(alone[0]):
+            continue
+        m2, _ = history._judge(ctx, _MATCH_RAW, x, outs[1])
+        if m2:
+            _PROBE["explained"] += 1
+            ctx.fail("property", "match_history", inp=hist, impl={"steps": outs, "notes": []},
+                     detail="history step 1 (fresh -> fresh): " + m2 + f" [alone, in a fresh process, the same call returns "
+                            f"{jkey(_plain(alone[0]))[:200]}]")
+            return None
+    return msg + " (state-dependent: a fresh process answers this call differently; no two-call history reproduces it)"
+
+
+def _holds_match(ctx, inp, io):
+    msg = _judge_match(ctx, inp, io)
+    if _CTX is None:          # --replay: judge only
+        return msg
+    if msg is None:
+        _PROBE["n"] += 1
+        if _PROBE["n"] % 7 == 0 and "raise" not in io:
+            # purity monitor: the answer must not depend on the calls made earlier in this process
+            alone = _fresh().run({"seq": [{"inp": inp}]})
+            if alone is not None:
+                ctx.tally("pristine-process probe: same answer in a fresh process")
+                if _plain(alone[0]) != _plain(io):
+                    ctx.tally("pristine-process probe: same answer in a fresh process", -1)
+                    msg = ("the answer to this call depends on the calls made earlier in this process: a fresh process "
+                           f"returns {jkey(_plain(alone[0]))[:300]}")
+    if msg is not None:
+        msg = _refine(ctx, inp, io, msg)
+    _RING.append(inp)
+    return msg
+
+
+def _holds_history(raw):
+    def holds(ctx, h, io):
+        msg = raw(ctx, h, io)
+        if msg is None or _CTX is None:
+            return msg
+        F = _fresh()
+        again = F.run(h, op="match_history")
+        if again is None or _plain(again) == _plain(io):
+            return msg                      # reproduces on its own (or the probe is unavailable)
+        m2 = raw(ctx, h, again)
+        if m2:
+            return m2 + " [as observed when the history runs in a fresh process]"
+        # the history is fine on its own: what failed here was caused by calls made before it
+        import re
+        k = re.match(r"history step (\d+)", msg)
+        if k and int(k.group(1)) < len(io.get("steps", [])):
+            k = int(k.group(1))
+            return _refine(ctx, h["seq"][k]["inp"], io["steps"][k], msg)
+        return msg + " (not reproduced when the history runs in a fresh process)"
+    return holds
+
+
 def _nontrivial(inp, out):
     if "val" not in out:
         return False
@@ -429,7 +792,7 @@ def _nontrivial(inp, out):
 
 OPS = {
     "match": Op("match", _impl_match, to_model=_geoms_args, model_op="match_geoms",
-                compare=_mk_compare(_matrix_of), holds=_mk_holds(_matrix_of, TOL), determined=False,
+                compare=_mk_compare(_matrix_of), holds=_holds_match, determined=False,
                 nontrivial=_nontrivial, mode="exact"),
     "match_matrix": Op("match_matrix", _impl_matrix, to_model=_matrix_args, compare=_mk_compare(_matrix_args),
                        holds=_mk_holds(_matrix_args, Fraction(0)), determined=False, nontrivial=_nontrivial,
@@ -439,6 +802,175 @@ OPS = {
     "match_solver": Op("match_solver", _impl_solver, to_model=_solver_args, compare=_compare_solver, determined=False,
                        nontrivial=_nontrivial, mode="exact", model_op="match"),
 }
+
+
+# ---------------------------------------------------------------- histories (harness/history.py, HISTORIES.md section 1)
+def _h_build(inp):
+    return _live_args(inp)
+
+
+def _h_call(args):
+    return list(_invoke(args))
+
+
+def _h_canon(inp, args, res):
+    return {"val": _canon(res)}
+
+
+def _h_snapshot(args):
+    """content of every argument: geometries (type, coordinates), list lengths, the buffers"""
+    def side(xs):
+        return [gen_geom.from_data(xs[i]) for i in range(len(xs))]
+    return [side(args["src"]), side(args["tgt"]), rat(float(args["tb"])), rat(float(args["fb"]))]
+
+
+H_REUSE = ("pool", "same_lists", "assign", "copy_update", "deep_copy_update", "inplace_list")
+
+
+def _h_modify(args, inp, how):
+    """the live objects of the previous step turned into the arguments of this step: the very same lists with other
+    buffers, the same geometry objects in new lists, geometry objects whose coordinates are assigned to /
+    model_copy(update=...)d, lists edited in place - nothing remembered from the earlier use may survive"""
+    new = _live_args(inp)
+    old_src = [args["src"][i] for i in range(len(args["src"]))]
+    old_tgt = [args["tgt"][i] for i in range(len(args["tgt"]))]
+    osj, otj, oalias = args["json"]
+    if how == "same_lists":
+        if jkey([osj, otj, oalias]) != jkey(new["json"]):
+            return None
+        new["src"], new["tgt"] = args["src"], args["tgt"]
+        return new
+    if how == "pool":
+        pool = {}
+        for g, o in list(zip(osj, old_src)) + list(zip(otj, old_tgt)):
+            pool.setdefault(jkey(g), o)
+        src = [pool.get(jkey(g)) or _geom_obj(g) for g in inp["source"]]
+        new["src"] = src
+        new["tgt"] = src if inp.get("alias") else [pool.get(jkey(g)) or _geom_obj(g) for g in inp["target"]]
+        return new
+    if how == "inplace_list":
+        if not isinstance(args["src"], list) or not isinstance(args["tgt"], list) or oalias or inp.get("alias"):
+            return None
+        args["src"][:] = [new["src"][i] for i in range(len(new["src"]))]
+        args["tgt"][:] = [new["tgt"][i] for i in range(len(new["tgt"]))]
+        new["src"], new["tgt"] = args["src"], args["tgt"]
+        return new
+    if how in ("assign", "copy_update", "deep_copy_update"):
+        if oalias or inp.get("alias"):
+            return None
+
+        def side(old, want):
+            if len(old) != len(want) or any(o.type != w["type"] for o, w in zip(old, want)):
+                return None
+            out = []
+            for o, w in zip(old, want):
+                c = gen_geom.coords_float(w)
+                if how == "assign":
+                    o.coordinates = c
+                    out.append(o)
+                else:
+                    out.append(o.model_copy(update={"coordinates": c}, deep=(how == "deep_copy_update")))
+            return out
+        a, b = side(old_src, inp["source"]), None
+        if a is None:
+            return None
+        b = side(old_tgt, inp["target"])
+        if b is None:
+            if how == "assign":      # the sources were already assigned to: they carry this step's content
+                new["src"] = a
+                return new
+            return None
+        new["src"], new["tgt"] = a, b
+        return new
+    return None
+
+
+def _h_poison(res):
+    """the caller edits the list it built from the matches"""
+    if not res:
+        return False
+    res.reverse()
+    res.append(res[0])
+    return True
+
+
+_BUFFER_CHOICES = [("1/100", "100"), ("1/4", "1/2"), ("1/2", "1"), ("1/2", "1000"), ("1/8", "100"), ("1/100", "500"),
+                   ("1", "100"), ("1/16", "50")]
+
+
+def _h_variants(x, rng):
+    """neighbours of a call: the same geometries with other buffers (written out, or left to the defaults),
+    source and target exchanged, one geometry moved, one geometry more"""
+    out = []
+    for tb, fb in rng.sample(_BUFFER_CHOICES, 4):
+        if (tb, fb) != (x["tb"], x["fb"]):
+            out.append({**x, "tb": tb, "fb": fb})
+    out.append({**x, "tb": "1/100", "fb": "100", "style": {"call": rng.choice(["default", "default_fb", "default_tb"])}})
+    out.append({**x, "style": {"call": rng.choice(["pos", "kw_rev", "pos3"])}})
+    if not x.get("alias"):
+        out.append({**x, "source": x["target"], "target": x["source"]})
+        if x["source"]:
+            i = rng.randrange(len(x["source"]))
+            moved = _shift_geom(x["source"][i], rng.choice([Fraction(1, 4), Fraction(1, 2), 1]))
+            out.append({**x, "source": x["source"][:i] + [moved] + x["source"][i + 1:]})
+        out.append({**x, "target": x["target"] + [_grid_geom(rng)]})
+    return out
+
+
+def _shift_geom(g, d):
+    def sh(c):
+        if isinstance(c, list) and c and not isinstance(c[0], list) and len(c) == 2:
+            return [rat(frac(c[0]) + d), c[1]]
+        return [sh(x) for x in c]
+    ty, c = g["type"], g["coordinates"]
+    if ty == "TimeStamp":
+        return {"type": ty, "coordinates": rat(frac(c) + d)}
+    if ty == "TimeInterval":
+        return {"type": ty, "coordinates": [rat(frac(c[0]) + d), rat(frac(c[1]) + d)]}
+    if ty == "BoundingBox":
+        return {"type": ty, "coordinates": [rat(frac(c[0]) + d), c[1], rat(frac(c[2]) + d), c[3]]}
+    if ty == "Point":
+        return {"type": ty, "coordinates": [rat(frac(c[0]) + d), c[1]]}
+    return {"type": ty, "coordinates": sh(c)}
+
+
+def _impl_interleaved(h):
+    """several calls whose generators are created first and consumed in turn (match_geometries is lazy): nothing
+    one call keeps between its yields may be touched by another"""
+    live = [_live_args(inp) for inp in h["seq"]]
+    gens = [iter(_invoke(a)) for a in live]
+    outs = [[] for _ in gens]
+    done = [False] * len(gens)
+    while not all(done):
+        for k, g in enumerate(gens):
+            if done[k]:
+                continue
+            try:
+                outs[k].append(next(g))
+            except StopIteration:
+                done[k] = True
+    return {"steps": [{"val": _canon(o)} for o in outs]}
+
+
+def _holds_interleaved(ctx, h, io):
+    if "raise" in io:
+        return f"the interleaved calls raised {io['raise']}"
+    for k, (inp, out) in enumerate(zip(h["seq"], io["steps"])):
+        msg, _ = history._judge(ctx, _MATCH_RAW, inp, out)
+        if msg:
+            return f"call {k} of {len(h['seq'])} consumed in turn: {msg}"
+    return None
+
+
+# the base operation of the histories: judged step by step without the probe (the probe works on whole histories)
+_MATCH_RAW = Op("match", _impl_match, to_model=_geoms_args, model_op="match_geoms", compare=_mk_compare(_matrix_of),
+                holds=_judge_match, determined=False, nontrivial=_nontrivial, mode="exact")
+OPS["match_history"] = history.history_op("match_history", _MATCH_RAW, _h_build, _h_call, _h_canon,
+                                          snapshot=_h_snapshot, modify=_h_modify, poison=_h_poison)
+OPS["match_history"].holds = _holds_history(OPS["match_history"].holds)
+OPS["match_interleaved"] = Op("match_interleaved", _impl_interleaved, holds=_holds_interleaved,
+                              compare=lambda inp, io, mo: None, determined=True, mode="exact", no_model=True,
+                              nontrivial=lambda inp, out: isinstance(out, dict) and "steps" in out)
 
 
 # ---------------------------------------------------------------- generators
@@ -583,6 +1115,158 @@ def _random_matrices(rng, count, nmax):
             for j in range(m):
                 vals[i * m + j] = "0"
         yield _matrix_case(n, m, vals)
+
+
+# ---------------------------------------------------------------- follow-up generators (HISTORIES.md sections 2-4)
+def _near_geom(rng, ty=None):
+    """a geometry of the given type placed so that neighbours overlap or not depending on the buffers
+    (times around 1-2 s in quarter steps, frequencies around 1-2 kHz)"""
+    ty = ty or rng.choice(gen_geom.TYPES)
+    t = Fraction(rng.choice([4, 5, 5, 6, 7, 8]), 4)
+    f = Fraction(rng.choice([1000, 1000, 1100, 1500]))
+    q, h = Fraction(1, 4), Fraction(1, 2)
+    if ty == "TimeStamp":
+        c = t
+    elif ty == "TimeInterval":
+        c = [t, t + h]
+    elif ty == "Point":
+        c = [t, f]
+    elif ty == "MultiPoint":
+        c = [[t, f], [t + q, f + 200]]
+    elif ty == "LineString":
+        c = [[t, f], [t + h, f + 300]]
+    elif ty == "MultiLineString":
+        c = [[[t, f], [t + h, f]], [[t + 1, f + 500], [t + 1 + h, f + 500]]]
+    elif ty == "BoundingBox":
+        c = [t, f, t + h, f + 500]
+    elif ty == "Polygon":
+        c = [[[t, f], [t + 1, f], [t + h, f + 800], [t, f]]]
+    else:
+        c = [[[[t, f], [t + h, f], [t + q, f + 400], [t, f]]], [[[t + 1, f], [t + 1 + h, f], [t + 1 + q, f + 400], [t + 1, f]]]]
+    return {"type": ty, "coordinates": gen_geom._enc(c)}
+
+
+def _near_cases(rng, count, nmax=3, low_dim=0.6):
+    low = ["TimeStamp", "Point", "MultiPoint", "LineString", "MultiLineString"]
+    for _ in range(count):
+        n, m = rng.randint(1, nmax), rng.randint(1, nmax)
+        pick = lambda: _near_geom(rng, rng.choice(low) if rng.random() < low_dim else None)
+        pool = [pick() for _ in range(2)]
+        src = [rng.choice(pool) if rng.random() < 0.3 else pick() for _ in range(n)]
+        tgt = [rng.choice(pool) if rng.random() < 0.3 else pick() for _ in range(m)]
+        tb, fb = rng.choice(_BUFFER_CHOICES)
+        yield {"source": src, "target": tgt, "tb": tb, "fb": fb}
+
+
+def _type_pair_cases(rng):
+    """every ordered pair of geometry types x buffer settings that change the time buffer only, the frequency
+    buffer only, both, none (options x input classes; sibling branches of _prepare_geometry / the two branches of
+    compute_affinity)"""
+    settings = [("1/100", "100"), ("1/4", "100"), ("1/100", "500"), ("1/2", "1000"), ("1/8", "1/2")]
+    for a in gen_geom.TYPES:
+        for b in gen_geom.TYPES:
+            for tb, fb in settings:
+                yield {"source": [_near_geom(rng, a), _near_geom(rng, a)], "target": [_near_geom(rng, b), _near_geom(rng, b)],
+                       "tb": tb, "fb": fb}
+
+
+def _style_cases(rng, per_value):
+    """every value of every style dimension, the other dimensions random; the fixed cases are built so that
+    exchanging or dropping a buffer changes the answer"""
+    dims = {"call": CALL_STYLES, "num": NUM_STYLES, "cont": CONT_STYLES, "geom": GEOM_STYLES}
+    fixed = [
+        {"source": [_stamp(1), {"type": "Point", "coordinates": ["1", "1000"]}],
+         "target": [_stamp(Fraction(5, 4)), {"type": "Point", "coordinates": ["5/4", "1200"]}], "tb": "1/2", "fb": "500"},
+        {"source": [_stamp(1), {"type": "Point", "coordinates": ["1", "1000"]}],
+         "target": [_stamp(Fraction(129, 128)), {"type": "Point", "coordinates": ["129/128", "1050"]}], "tb": "1/100", "fb": "100"},
+        {"source": [_stamp(2), _box(1, 1000, 2, 2000)], "target": [_stamp(3), _interval(1, 3)], "tb": "1", "fb": "100"},
+        {"source": [{"type": "Point", "coordinates": ["2", "1000"]}], "target": [{"type": "Point", "coordinates": ["2", "1004"]}],
+         "tb": "1/100", "fb": "4"},
+    ]
+    for dim, values in dims.items():
+        for val in values:
+            for k in range(per_value):
+                base = fixed[k % len(fixed)] if k < len(fixed) else next(_near_cases(rng, 1))
+                st = {d: rng.choice(vs) for d, vs in dims.items()}
+                st[dim] = val
+                st["share"] = rng.random() < 0.3
+                yield {**base, "style": st}
+
+
+def _boundary_geometry_cases():
+    """tolerance-sized offsets around the one comparison the property pins (affinity > 0), at small and large
+    magnitudes; every point of the 10 ms lattice with the 10 ms default buffer"""
+    out = []
+    # tiny but positive intersections over unions: 1e-6 ... 1e-12 (all must be paired)
+    for L in (1.0, 1000.0, 86400.0):
+        for k in range(6, 13):
+            w = L * 10.0 ** (-k)
+            t = L / 2
+            if t + w > t:
+                out.append({"source": [_fi(t, t + w)], "target": [_fi(0.0, L)], "tb": "1/100", "fb": "100"})
+                out.append({"source": [_fi(0.0, L), _fi(L + 1, L + 2)], "target": [_fi(t, t + w)], "tb": "0", "fb": "0"})
+    out.append({"source": [_fb(10.0, 40000.0, 10.001, 40050.0)], "target": [_fb(0.0, 0.0, 300.0, 96000.0)], "tb": "1/100", "fb": "100"})
+    out.append({"source": [_fb(10.0, 40000.0, 10.001, 40050.0), _fb(20.0, 100.0, 20.0001, 100.5)],
+                "target": [_fb(0.0, 0.0, 300.0, 96000.0), _fb(0.0, 0.0, 300.0, 96000.0)], "tb": "1/100", "fb": "100"})
+    # touching / overlapping by eps / separated by eps, at magnitudes 1 and 1e6
+    for base, eps in ((0.0, 2.0 ** -40), (0.0, 1e-12), (0.0, 1e-9), (0.0, 1e-6), (1e6, 2.0 ** -20), (1e6, 1e-6), (1e6, 1e-9 * 1e6)):
+        for d in (0.0, eps, -eps):
+            a, b = _fi(base, base + 1), _fi(base + 1 - d, base + 2)
+            out.append({"source": [a], "target": [b], "tb": "1/100", "fb": "100"})
+            out.append({"source": [_fb(base, 0.0, base + 1, 1000.0)], "target": [_fb(base + 1 - d, 0.0, base + 2, 1000.0)],
+                        "tb": "1/100", "fb": "100"})
+    # the 10 ms lattice: stamps two steps apart touch (affinity 0 up to one rounding), one step apart overlap by a third
+    for off in (0, 1000):
+        for k in range(0, 131 if off == 0 else 41):
+            st = lambda j: {"type": "TimeStamp", "coordinates": rat((off * 100 + j) / 100)}
+            out.append({"source": [st(k)], "target": [st(k + 2), st(k + 1)], "fb": "100",
+                        **({"tb": "1/100", "style": {"call": "default"}} if k % 2 else {"tb": rat(0.01)})})
+    return out
+
+
+def _fi(s, e):
+    return {"type": "TimeInterval", "coordinates": [rat(float(s)), rat(float(e))]}
+
+
+def _fb(s, lo, e, hi):
+    return {"type": "BoundingBox", "coordinates": [rat(float(x)) for x in (s, lo, e, hi)]}
+
+
+def _boundary_matrix_cases(rng):
+    """alternatives that differ by 1e-6 ... 1e-12, tiny decimal entries, shapes across the thresholds where an
+    implementation could switch strategy (> 16 elements, > 256 cells, >= 1024 pairs / items)"""
+    for a in (0.5, 1e-3, 1.0 - 1e-6):
+        for d in (1e-6, 1e-9, 1e-12):
+            other = a + d if a + d <= 1.0 else a - d
+            lo, hi = rat(min(a, other)), rat(max(a, other))
+            yield {"n": 2, "m": 2, "matrix": [[lo, hi], [hi, lo]]}
+            yield {"n": 2, "m": 2, "matrix": [[hi, lo], [lo, hi]]}
+            yield {"n": 2, "m": 3, "matrix": [[lo, hi, lo], [hi, hi, lo]]}
+            yield {"n": 3, "m": 3, "matrix": [[hi, lo, "0"], [lo, hi, lo], ["0", lo, hi]]}
+    tiny = ["0"] + [rat(10.0 ** -k) for k in (6, 8, 9, 10, 12)]
+    for vals in itertools.product(tiny, repeat=4):
+        if rng.random() < 0.25:
+            yield _matrix_case(2, 2, list(vals))
+    for v in tiny[1:]:
+        yield _matrix_case(1, 1, [v])
+        yield _matrix_case(1, 2, ["0", v])
+        yield _matrix_case(2, 1, [v, "0"])
+    for n, m in ((17, 17), (16, 17), (33, 32), (3, 400), (2, 600), (1030, 1), (1, 1030), (257, 1), (5, 52)):
+        pool = rng.choice([["0", "0", "1/4", "1/2", "1"], ["0", "1"], None])
+        vals = [rng.choice(pool) if pool else rat(Fraction(rng.randint(0, 1024), 1024)) for _ in range(n * m)]
+        yield _matrix_case(n, m, vals)
+
+
+def _long_time_lists(rng, count):
+    """>= 1024 pairs of real geometries (time stamps and intervals: closed-form affinities)"""
+    for _ in range(count):
+        n, m = rng.choice([(35, 30), (33, 32), (18, 60)])
+        def g():
+            t0 = Fraction(rng.randint(0, 160), 4)
+            return _stamp(t0) if rng.random() < 0.5 else _interval(t0, t0 + Fraction(rng.randint(1, 8), 4))
+        src = [g() for _ in range(n)]
+        tgt = [g() for _ in range(m)]
+        yield {"source": src, "target": tgt, "tb": rng.choice(["1/4", "1/2", "1/100"]), "fb": "100"}
 
 
 # ---------------------------------------------------------------- the solver's answer as a parameter: generators
@@ -841,6 +1525,104 @@ def _stage_lists(ctx):
     ctx.exhaustive["match"] = f"all source/target lists of length 0..2 over a pool of {ctx.budget(5, 6)} boxes/intervals"
 
 
+def _sig_literal(fn):
+    """`inspect.signature(fn)` as a Lean `List (Param Arg)`: names, kinds, defaults (numbers as the decimal the
+    source states; any other default as `.num 0`, it only has to exist)"""
+    import inspect
+    ps = []
+    for prm in inspect.signature(fn).parameters.values():
+        kind = ".positional" if prm.kind in (prm.POSITIONAL_ONLY, prm.POSITIONAL_OR_KEYWORD) else ".keywordOnly"
+        if prm.kind in (prm.VAR_POSITIONAL, prm.VAR_KEYWORD):
+            default = "some (.num 0)"
+        elif prm.default is prm.empty:
+            default = "none"
+        elif isinstance(prm.default, (int, float)) and not isinstance(prm.default, bool):
+            q = Fraction(str(prm.default))
+            if float(q) != float(prm.default):
+                q = Fraction(prm.default)
+            default = f"some (.num (({q.numerator} : Rat) / {q.denominator}))"
+        else:
+            default = "some (.num 0)"
+        ps.append(f'⟨"{prm.name}", {kind}, {default}⟩')
+    return "[" + ", ".join(ps) + "]"
+
+
+def _stage_signature(ctx):
+    """Tie 1: the signatures of the two public functions, re-extracted from the live objects, still serve every call
+    written against the documented one (same leading parameters, names, order, defaults; additions optional)"""
+    import soundevent.evaluation as E
+    for name, table in (("match_geometries", "matchSig"), ("compute_affinity", "affinitySig")):
+        fn = getattr(E, name, None)
+        if fn is None:
+            ctx.pre_failed.append(f"signature of {name}")
+            ctx.fail("obligation", f"signature of {name}", detail=f"soundevent.evaluation no longer exposes {name}")
+            continue
+        lit = _sig_literal(fn)
+        ctx.obligation(f"sig_{name}", "open SE SE.MatchCall in\n"
+                       f"theorem sig_{name} : compatible (V := Arg) {lit} {table} = true := by decide +kernel\n",
+                       {"op": "match"})
+
+
+def _stage_styles(ctx):
+    cases = list(_style_cases(ctx.rng, ctx.budget(4, 12)))
+    ctx.run_cases(OPS["match"], cases)
+    ctx.exhaustive["styles"] = ("every call style (keyword, positional in the documented order, partly positional, keywords "
+                                "reversed, buffers omitted), number style (float, int, numpy float64/float32/int64), container "
+                                "(list, tuple, other Sequence, numpy object array) and construction path of the geometries "
+                                f"(validate, constructor, dict, JSON, copies, tuples, ints, numpy scalars), {ctx.budget(4, 12)} cases each")
+
+
+def _stage_type_pairs(ctx):
+    ctx.run_cases(OPS["match"], _type_pair_cases(ctx.rng))
+    ctx.exhaustive["type pairs x buffers"] = ("all 81 ordered pairs of geometry types x 5 buffer settings (default, time only, "
+                                              "frequency only, both, both small), 2 x 2 lists")
+
+
+def _history_bases(ctx):
+    rng = ctx.rng
+    base = list(_near_cases(rng, ctx.budget(60, 500)))
+    base += [c for c in _grid_cases(rng, ctx.budget(25, 200), 3)]
+    base += [{"source": [_stamp(1), _stamp(4)], "target": [_stamp(Fraction(13, 10)), _stamp(Fraction(21, 5))], "tb": "1/100", "fb": "100"},
+             {"source": [{"type": "Point", "coordinates": ["1", "1000"]}], "target": [{"type": "Point", "coordinates": ["1", "1050"]}],
+              "tb": "1/100", "fb": "10"}]
+    return base
+
+
+def _stage_histories(ctx):
+    """consecutive calls in one process: the same geometries with other buffers (equal content, same or distinct
+    objects), buffers omitted after buffers given, geometry objects changed by assignment / model_copy and used again,
+    lists edited in place, results edited by the caller, results compared again after later calls, arguments
+    snapshotted around every call"""
+    base = _history_bases(ctx)
+    hs = history.sequences(ctx.rng, base, ctx.budget(110, 900), variants=_h_variants, reuse_hows=H_REUSE, poison=True,
+                           length=(2, 4))
+    for h in hs:
+        for st in h["seq"]:
+            ctx.tally("history:" + (st.get("reuse") or "fresh") + ("+poison" if st.get("poison") else ""))
+    ctx.run_cases(OPS["match_history"], hs)
+    inter = []
+    for _ in range(ctx.budget(50, 400)):
+        x = ctx.rng.choice(base)
+        ys = _h_variants(x, ctx.rng)
+        inter.append({"seq": [x] + [ctx.rng.choice(ys) if ctx.rng.random() < 0.7 else ctx.rng.choice(base)
+                                    for _ in range(ctx.rng.randint(1, 2))]})
+    ctx.run_cases(OPS["match_interleaved"], inter)
+
+
+def _stage_boundaries(ctx):
+    ctx.run_cases(OPS["match"], _boundary_geometry_cases())
+    ctx.run_cases(OPS["match"], _long_time_lists(ctx.rng, ctx.budget(2, 8)))
+    ctx.exhaustive["boundaries"] = ("intervals / boxes with intersection over union 1e-6 ... 1e-12 at extents 1, 1000, 86400 s; touching, "
+                                    "overlapping and separated by 2^-40 ... 1e-6 at magnitudes 1 and 1e6; every point of the 10 ms "
+                                    "lattice 0 ... 1.3 s and 1000 ... 1000.4 s with the 10 ms buffer (two steps apart: touching)")
+
+
+def _stage_boundary_matrices(ctx):
+    ctx.run_cases(OPS["match_matrix"], _boundary_matrix_cases(ctx.rng))
+    ctx.exhaustive["matrix boundaries"] = ("alternatives differing by 1e-6, 1e-9, 1e-12; entries 1e-6 ... 1e-12; shapes 17x17, 16x17, "
+                                           "33x32, 3x400, 2x600, 1030x1, 1x1030, 257x1, 5x52 (optimum by certificate)")
+
+
 def _timed(ctx):
     """ctx.stage with the wall time of each stage recorded in the evidence notes"""
     import time
@@ -870,12 +1652,19 @@ def run(ctx):
         stage("the solver's answer as a parameter (compute_affinity and linear_sum_assignment stubbed)",
                   _stage_solver, ctx)
         stage("symbolic affinities at fixed shapes", _stage_symbolic, ctx)
+        stage("matrix boundaries and size thresholds", _stage_boundary_matrices, ctx)
+    stage("signatures of match_geometries / compute_affinity (Tie 1)", _stage_signature, ctx)
+    stage("construction and call styles", _stage_styles, ctx)
+    stage("type pairs x buffer settings", _stage_type_pairs, ctx)
+    stage("numeric boundaries on real geometries, long lists", _stage_boundaries, ctx)
+    stage("histories", _stage_histories, ctx)
     stage("exhaustive short lists of real geometries", _stage_lists, ctx)
     stage("tie-rich grid lists", lambda: ctx.run_cases(OPS["match"], _grid_cases(ctx.rng, ctx.budget(500, 5000), nmax)))
     stage("long grid lists (optimality by certificate)",
               lambda: ctx.run_cases(OPS["match"], _grid_cases(ctx.rng, ctx.budget(60, 400), ctx.budget(10, 16), nmin=4)))
     stage("free-mode lists", lambda: ctx.run_cases(OPS["match"], _free_cases(ctx.rng, ctx.budget(150, 2000), min(nmax, 5))))
-    stage("discharge", ctx.discharge, ["SoundeventModel.Matching"])
+    stage("discharge", ctx.discharge, ["SoundeventModel.Matching", "SoundeventModel.MatchCall"])
+    _close_fresh()
 
 
 def search(ctx, failures):
